@@ -32,7 +32,7 @@ fn project(r: &Radial, with_values: bool) -> Value {
     let mut values = Map::new();
     for (p, _) in MOMENTS {
         present.insert(p.into(), json!(moment(r, p).is_some()));
-        if with_values { if let Some(md) = moment(r, p) { values.insert(p.into(), json!(md.values().iter().map(|v| { let (c, b) = cls_model(v); json!([c, b]) }).collect::<Vec<_>>())); } }
+        if with_values { if let Some(md) = moment(r, p) { values.insert(p.into(), match guarded(|| md.values().iter().map(|v| { let (c, b) = cls_model(v); json!([c, b]) }).collect::<Vec<_>>()) { Ok(v) => json!(v), Err(msg) => json!({"panic": msg}) }); } }
     }
     let ts = r.collection_timestamp();
     let sp = r.azimuth_spacing_degrees() as f64 * 2.0;
@@ -81,7 +81,9 @@ pub fn run(args: &Args) {
                     let (scale, offset) = (blk.header.scale, blk.header.offset);
                     let want_cls: Vec<u8> = w["cls"].as_array().map(|c| c.iter().map(|x| match x.as_str() { Some("below") => 0, Some("folded") => 1, _ => 2 }).collect()).unwrap_or_default();
                     let raws = u64s(&w["raws"]);
-                    for (level, got) in [("decoded_values", blk.decoded_values().iter().map(cls_decode).collect::<Vec<_>>()), ("model_values", md.values().iter().map(cls_model).collect::<Vec<_>>())] {
+                    let both = guarded(|| (blk.decoded_values().iter().map(cls_decode).collect::<Vec<_>>(), md.values().iter().map(cls_model).collect::<Vec<_>>()));
+                    let (dv, mv) = match both { Ok(x) => x, Err(msg) => { res.mismatch("violation", "C07/values/panic", format!("{p}: {msg}"), small.clone()); continue; } };
+                    for (level, got) in [("decoded_values", dv), ("model_values", mv)] {
                         if got.len() as u64 != w["gates"].as_u64().unwrap_or(0) { res.mismatch("violation", &format!("C07/{level}/one_value_per_gate"), format!("{p}: {} gates, {} values", w["gates"], got.len()), small.clone()); continue; }
                         for (k, (c, bits)) in got.iter().enumerate() {
                             if *c != want_cls[k] { res.mismatch("violation", &format!("C07/{level}/class"), format!("{p} gate {k}: raw {} expected class {} got {}", raws[k], want_cls[k], c), small.clone()); break; }
@@ -110,7 +112,7 @@ pub fn run(args: &Args) {
                     let hdr = l.get("drd_header").random(&mut rng);
                     let bytes = build_message(&l, &hdr, &[b], &[0]);
                     res.case(fnv(&bytes), true);
-                    let m = match decode_digital_radar_data(&mut Cursor::new(&bytes)) { Ok(m) => m, Err(e) => { eprintln!("radial: driver message does not decode: {e:?}"); std::process::exit(2) } };
+                    let m = match guarded(|| decode_digital_radar_data(&mut Cursor::new(&bytes))) { Ok(Ok(m)) => m, other => { res.mismatch("violation", "C07/decode_failed", format!("a well-formed type-31 message built by the driver does not decode: {:?}", other.map(|r| r.map(|_| ()))), json!({"bytes": bytes})); continue; } };
                     let r = guarded(|| { let blk = block(&m, p).expect("block"); (blk.decoded_values().iter().map(cls_decode).collect::<Vec<_>>(), blk.moment_data().values().iter().map(cls_model).collect::<Vec<_>>(), m.clone().into_radial().ok().and_then(|r| moment(&r, p).map(|md| md.values().iter().map(cls_model).collect::<Vec<_>>()))) });
                     match r {
                         Err(pn) => res.mismatch("violation", "C07/values/panic", pn, json!({"w": w, "scale": scale, "offset": offset})),
@@ -136,7 +138,7 @@ pub fn run(args: &Args) {
                 let ptrs: Vec<usize> = (0..blocks.len()).collect();
                 let bytes = build_message(&l, &hdr, &blocks, &ptrs);
                 res.case(fnv(&bytes), !prods.is_empty());
-                let m = match decode_digital_radar_data(&mut Cursor::new(&bytes)) { Ok(m) => m, Err(e) => { eprintln!("radial: driver message does not decode: {e:?}"); std::process::exit(2) } };
+                let m = match guarded(|| decode_digital_radar_data(&mut Cursor::new(&bytes))) { Ok(Ok(m)) => m, other => { res.mismatch("violation", "C07/decode_failed", format!("a well-formed type-31 message built by the driver does not decode: {:?}", other.map(|r| r.map(|_| ()))), json!({"bytes": bytes})); continue; } };
                 match guarded(|| (m.radial(), m.clone().into_radial())) {
                     Ok((Ok(a), Ok(b))) => {
                         let mut pa = project(&a, true); let mut pb = project(&b, true);
